@@ -66,6 +66,11 @@ def impl_unpack(args, base_shape):
 def dist_of(spec):
     from abtem.distributions import DistributionFromValues
 
+    if isinstance(spec, dict) and "gaussian" in spec:
+        import abtem
+
+        g = spec["gaussian"]
+        return abtem.distributions.gaussian(g["sigma"], g["n"], center=g["center"], ensemble_mean=bool(spec.get("mean", True)))._distributions[0]
     if isinstance(spec, dict):
         return DistributionFromValues(np.array(spec["values"], dtype=float), weights=np.array(spec["weights"], dtype=float),
                                       ensemble_mean=bool(spec.get("mean", False)))
@@ -108,7 +113,23 @@ def gen_dist(rng, name, allow_mean=False):
 
 def gen_case(ctx: Ctx):
     rng = ctx.rng
-    kind = rng.choice(["aberrations", "aberrations", "ctf", "aperture", "temporal", "spatial", "probe", "probe", "probe", "planewave-multislice"])
+    kind = rng.choice(["aberrations", "aberrations", "ctf", "aperture", "temporal", "spatial", "probe", "probe", "probe", "planewave-multislice",
+                       "mean", "mean"])
+    if kind == "mean":  # one averaged (ensemble_mean) distribution on a transfer function applied to a wave
+        tk = rng.choice(["aberrations", "ctf", "temporal", "spatial", "aperture"])
+        name = {"aberrations": rng.choice(["C10", "C30", "C12"]), "ctf": rng.choice(["C10", "C30"]), "temporal": "focal_spread",
+                "spatial": "angular_spread", "aperture": "semiangle_cutoff"}[tk]
+        how = rng.choice(["unit", "weights", "weights", "gaussian"])
+        n = rng.randint(2, 4)
+        if how == "gaussian":
+            spec = {"gaussian": {"sigma": {"C10": 30.0, "C30": 1e4, "C12": 10.0, "focal_spread": 10.0, "angular_spread": 0.5, "semiangle_cutoff": 3.0}[name],
+                                 "n": n, "center": {"focal_spread": 30.0, "angular_spread": 1.5, "semiangle_cutoff": 20.0}.get(name, 0.0)}, "mean": True}
+        else:
+            spec = gen_dist(rng, name)
+            spec["values"] = [abs(v) + 1.0 for v in spec["values"]] if name in ("focal_spread", "angular_spread", "semiangle_cutoff") else spec["values"]
+            spec["weights"] = [1.0] * len(spec["values"]) if how == "unit" else [rng.choice([0.5, 1.0, 2.0, 0.25]) for _ in spec["values"]]
+            spec["mean"] = True
+        return {"kind": "mean", "transform": tk, "name": name, "dist": spec, "lazy": rng.random() < 0.4}
     params = {}
     if kind in ("aberrations", "ctf", "spatial"):
         for s in rng.sample(SYMBOLS, rng.randint(1, 3)):
@@ -280,6 +301,8 @@ class C03(Property):
     # ------------------------------------------------------------------------------------------- conformance
     def oracle(self, ctx: Ctx, c):
         kind = c["kind"]
+        if kind == "mean":
+            return self.oracle_mean(ctx, c)
         if kind in ("probe", "planewave-multislice"):
             return self.oracle_waves(ctx, c)
         params = c["params"]
@@ -323,6 +346,40 @@ class C03(Property):
             if ref.shape != alpha.shape or not np.allclose(arr[idx], ref, rtol=1e-4, atol=1e-5):
                 ctx.violation(f"{kind}:member-ne-scalar-run", c, {"index": list(idx), "max_abs_diff": float(np.max(np.abs(arr[idx] - ref))) if ref.shape == arr[idx].shape else "shape"})
                 return
+
+    def oracle_mean(self, ctx: Ctx, c):
+        """averaged axis of a transfer-function ensemble applied to a wave, through the intensity measurement, against the
+        weighted mean the distribution defines (intensity weights w_i^2): sum w_i^2 I_i / sum w_i^2"""
+        import abtem
+
+        tk, name = c["transform"], c["name"]
+        d = dist_of(c["dist"])
+        vals = [float(v) for v in np.asarray(d.values)]
+        ws = np.asarray(d.weights, dtype=float)
+        wave = abtem.Probe(energy=100e3, semiangle_cutoff=30, gpts=16, extent=5.0, C30=1e4).build(lazy=c["lazy"])
+        fixed = {"ctf": {"semiangle_cutoff": 25.0}, "spatial": {"C10": 50.0}}.get(tk, {})
+        mk = lambda v: make_object(tk, {**fixed, name: v})  # noqa
+        try:
+            ens = mk(d).apply(wave)
+            got = np.asarray(ens.intensity().reduce_ensemble().compute().array)
+            singles = [np.asarray(mk(v).apply(wave).intensity().compute().array) for v in vals]
+        except Exception as e:  # noqa
+            ctx.violation(f"mean:{tk}:raises", c, {"error": f"{type(e).__name__}: {e}"[:200]}); return
+        ctx.count(f"mean:{tk}:{'unit' if np.allclose(ws, ws[0]) else 'weighted'}")
+        n = len(vals)
+        tol = dict(rtol=2e-4, atol=1e-7 * float(max(np.abs(x).max() for x in singles)))
+        weighted = sum(w * w * i for w, i in zip(ws, singles)) / float(np.sum(ws ** 2))
+        if got.shape == weighted.shape and np.allclose(got, weighted, **tol):
+            return
+        detail = {"n": n, "weights": [float(w) for w in ws], "total_got": float(got.sum()), "total_weighted_mean": float(weighted.sum())}
+        code_w2 = sum(w * w * i for w, i in zip(ws, singles)) / n
+        plain = sum(singles) / n
+        if got.shape == weighted.shape and tk in ("aberrations", "ctf") and np.allclose(got, code_w2, **tol):
+            ctx.violation("aberrations:ensemble-mean-is-sum-w2I-over-n", c, detail)  # the recorded sub-case, verified
+        elif got.shape == weighted.shape and tk in ("temporal", "spatial", "aperture") and np.allclose(got, plain, **tol):
+            ctx.violation("envelope:ensemble-mean-ignores-distribution-weights", c, detail)
+        else:
+            ctx.violation(f"mean:{tk}:averaged-axis-unexplained", c, detail)
 
     def oracle_waves(self, ctx: Ctx, c):
         import abtem
